@@ -95,7 +95,14 @@ pub struct Spec {
     pub patterns: Vec<Vec<u8>>,
     /// Parallel to `patterns`; ignored for `Entry::Indices`.
     pub values: Vec<u64>,
+    /// build through the convenience constructors `new` / `with_values` of the automaton type
+    /// instead of the builder (only honoured for the settings those imply: standard kind,
+    /// default number of free blocks)
+    #[serde(default)]
+    pub ctor: bool,
 }
+
+pub const DEFAULT_NFB: u32 = 16;
 
 /// A match with the value widened so that all value types compare alike.
 #[derive(Clone, Copy, Debug, PartialEq, Eq, Hash, Serialize, Deserialize)]
@@ -264,7 +271,7 @@ pub fn scribble_stack() {
 /// How a caller takes the matches out of a search iterator: `pre` calls of `next()` first, then
 /// one of the other `Iterator` methods. Both entry points are consumed the same way and must
 /// give the same answer.
-pub const N_STYLES: u8 = 9;
+pub const N_STYLES: u8 = 10;
 
 #[derive(Clone, Debug, PartialEq, Eq)]
 pub struct Consumed {
@@ -283,7 +290,8 @@ pub fn style_name(style: u8) -> &'static str {
         5 => "skip(1).fold",
         6 => "by_ref().take(2).fold, then next()",
         7 => "size_hint, then fold",
-        _ => "step_by(2).for_each",
+        8 => "step_by(2).for_each",
+        _ => "move the iterator to the heap, then next()",
     }
 }
 
@@ -341,10 +349,18 @@ pub fn consume<I: Iterator<Item = Mt>>(mut it: I, pre: usize, style: u8) -> Cons
                 v
             });
         }
-        _ => {
+        8 => {
             let mut v = vec![];
             it.step_by(2).for_each(|m| v.push(m));
             c.rest = v;
+        }
+        _ => {
+            // the search iterator changes its address between two calls
+            let mut moved = Box::new(it);
+            scribble_stack();
+            while let Some(m) = moved.next() {
+                c.rest.push(m);
+            }
         }
     }
     c
@@ -364,7 +380,8 @@ pub trait DynPma: Send + Sync {
     fn open_slice_inline<'a>(&'a self, m: Method, hay: InlineHay) -> MatchIter<'a>;
     /// Slice / byte-iterator search consumed through `consume` on the concrete iterator type
     /// (a boxed iterator would hide overridden `fold`, `count`, `nth`, ...).
-    fn consume_slice(&self, m: Method, hay: Hay, pre: usize, style: u8) -> Consumed;
+    /// `inline`: pass the bytes by value in an inline container when they fit.
+    fn consume_slice(&self, m: Method, hay: Hay, inline: bool, pre: usize, style: u8) -> Consumed;
     fn consume_iter(&self, m: Method, src: ByteSrc<'_>, pre: usize, style: u8) -> Consumed;
     fn serialize(&self) -> Vec<u8>;
     fn same(&self, other: &dyn DynPma) -> bool;
@@ -415,7 +432,15 @@ impl<V: SimVal> DynPma for Bw<V> {
         scribble_stack();
         it
     }
-    fn consume_slice(&self, m: Method, hay: Hay, pre: usize, style: u8) -> Consumed {
+    fn consume_slice(&self, m: Method, hay: Hay, inline: bool, pre: usize, style: u8) -> Consumed {
+        if let (true, Some(hay)) = (inline, InlineHay::new(&hay.bytes)) {
+            return match m {
+                Method::Find => consume(self.0.find_iter(hay).map(mt), pre, style),
+                Method::Overlapping => consume(self.0.find_overlapping_iter(hay).map(mt), pre, style),
+                Method::NoSuffix => consume(self.0.find_overlapping_no_suffix_iter(hay).map(mt), pre, style),
+                Method::Leftmost => consume(self.0.leftmost_find_iter(hay).map(mt), pre, style),
+            };
+        }
         match m {
             Method::Find => consume(self.0.find_iter(hay).map(mt), pre, style),
             Method::Overlapping => consume(self.0.find_overlapping_iter(hay).map(mt), pre, style),
@@ -500,8 +525,16 @@ impl<V: SimVal> DynPma for Cw<V> {
         scribble_stack();
         it
     }
-    fn consume_slice(&self, m: Method, hay: Hay, pre: usize, style: u8) -> Consumed {
+    fn consume_slice(&self, m: Method, hay: Hay, inline: bool, pre: usize, style: u8) -> Consumed {
         assert!(std::str::from_utf8(AsRef::<[u8]>::as_ref(&hay)).is_ok(), "harness: char-wise haystack must be UTF-8");
+        if let (true, Some(hay)) = (inline, InlineHay::new(&hay.bytes)) {
+            return match m {
+                Method::Find => consume(self.0.find_iter(hay).map(mt), pre, style),
+                Method::Overlapping => consume(self.0.find_overlapping_iter(hay).map(mt), pre, style),
+                Method::NoSuffix => consume(self.0.find_overlapping_no_suffix_iter(hay).map(mt), pre, style),
+                Method::Leftmost => consume(self.0.leftmost_find_iter(hay).map(mt), pre, style),
+            };
+        }
         match m {
             Method::Find => consume(self.0.find_iter(hay).map(mt), pre, style),
             Method::Overlapping => consume(self.0.find_overlapping_iter(hay).map(mt), pre, style),
@@ -597,11 +630,19 @@ fn build_t<V: SimVal>(
             let b = DoubleArrayAhoCorasickBuilder::new()
                 .match_kind(spec.kind.mk())
                 .num_free_blocks(spec.num_free_blocks);
+            let ctor = spec.ctor && spec.kind == Kind::Standard && spec.num_free_blocks == DEFAULT_NFB;
             let r = match spec.entry {
+                Entry::Indices if identity && ctor => DoubleArrayAhoCorasick::<V>::new(pats),
                 Entry::Indices if identity => b.build::<_, _, V>(pats),
                 // values are the original input positions: a permuted feed has to carry them
+                Entry::Indices if ctor => DoubleArrayAhoCorasick::<V>::with_values(
+                    pats.zip(order.iter().map(|&i| V::from_raw(i as u64))),
+                ),
                 Entry::Indices => b.build_with_values::<_, _, V>(
                     pats.zip(order.iter().map(|&i| V::from_raw(i as u64))),
+                ),
+                Entry::WithValues if ctor => DoubleArrayAhoCorasick::<V>::with_values(
+                    pats.zip(order.iter().map(|&i| V::from_raw(spec.values[i]))),
                 ),
                 Entry::WithValues => b.build_with_values::<_, _, V>(
                     pats.zip(order.iter().map(|&i| V::from_raw(spec.values[i]))),
@@ -620,11 +661,19 @@ fn build_t<V: SimVal>(
             let b = CharwiseDoubleArrayAhoCorasickBuilder::new()
                 .match_kind(spec.kind.mk())
                 .num_free_blocks(spec.num_free_blocks);
+            let ctor = spec.ctor && spec.kind == Kind::Standard && spec.num_free_blocks == DEFAULT_NFB;
             let r = match spec.entry {
+                Entry::Indices if identity && ctor => CharwiseDoubleArrayAhoCorasick::<V>::new(pats),
                 Entry::Indices if identity => b.build::<_, _, V>(pats),
                 // values are the original input positions: a permuted feed has to carry them
+                Entry::Indices if ctor => CharwiseDoubleArrayAhoCorasick::<V>::with_values(
+                    pats.zip(order.iter().map(|&i| V::from_raw(i as u64))),
+                ),
                 Entry::Indices => b.build_with_values::<_, _, V>(
                     pats.zip(order.iter().map(|&i| V::from_raw(i as u64))),
+                ),
+                Entry::WithValues if ctor => CharwiseDoubleArrayAhoCorasick::<V>::with_values(
+                    pats.zip(order.iter().map(|&i| V::from_raw(spec.values[i]))),
                 ),
                 Entry::WithValues => b.build_with_values::<_, _, V>(
                     pats.zip(order.iter().map(|&i| V::from_raw(spec.values[i]))),
